@@ -108,6 +108,7 @@ def cmd_check(sid, tier="quick"):
     rca, outa = sh(["git", "-C", "/repo", "apply", os.path.join(SEEDED, sid, "patch.diff")])
     try:
         t0 = time.time()
+        os.environ["VERIF_EVIDENCE_DIR"] = os.path.join(HERE, ".cache", "evidence-seeded")   # never clobber the committed evidence
         rc, out = sh([os.path.join(HERE, "vx"), "check", prop, "--tier", tier], cwd=HERE, timeout=7200)
     finally:
         sh(["git", "-C", "/repo", "checkout", "--", "."])
